@@ -141,6 +141,7 @@ type Result struct {
 	Wall           float64
 	EngineErrors   []string
 	Schedules      int64
+	SleepPruned    int64
 	Races          int64
 	MaxDepth       int
 	Bounds         map[string]int
@@ -409,7 +410,11 @@ func (w *worker) runPath(trail []Decision, fixed int) *Run {
 		res.MaxDepth = len(r.trail)
 	}
 	if w.i.sch.nthreads > 1 {
-		res.Schedules++
+		if w.i.sch.Pruned {
+			res.SleepPruned++
+		} else {
+			res.Schedules++
+		}
 	}
 	for k := range r.reached {
 		res.Reached[k] = true
